@@ -5,6 +5,10 @@ cleanup_superseeded    _superseeded on pairs of body / condition literals
 cleanup_apply          _apply_superseeding (returned statement AND the in-place mutated input),
                        remove_boolean, true / false / remove_true_literals / contains_false / cleanup_boolean_*
 cleanup_execute_core   CleanupTranslator.execute with ngo.cleanup.inline_arithmetic patched to the identity
+cleanup_execute        the unpatched CleanupTranslator.execute (model: Model/CleanupExecute.v = Normalize.inline_arithmetic
+                       followed by execute_core); a model answer OutOfFragment (inherited from inline_arithmetic:
+                       variables inside theory atoms) is not compared.  CLEANUP_FRAGMENT=1 turns every case of this
+                       family into "is the model inside its fragment?", the mismatches are then the OutOfFragment cases.
 
 Sets of Mapping are compared modulo order (mset_eqb).  The real code mutates aggregate nodes of its
 input in place, so it is always handed statements that were parsed (or preprocessed) for that one
@@ -13,6 +17,7 @@ observed results (Raise "<class>").  Programs with node kinds outside the AST mi
 counted in SKIPPED.
 """
 import logging
+import os
 
 from clingo.ast import ASTType, Sign
 
@@ -21,7 +26,9 @@ from .corr import Case
 from .inputs import parse, try_parse
 
 IMPORTS = ["Model.Traverse", "Model.Cleanup"]
-SKIPPED = {"cleanup_mappings": 0, "cleanup_superseeded": 0, "cleanup_apply": 0, "cleanup_execute_core": 0}
+SKIPPED = {"cleanup_mappings": 0, "cleanup_superseeded": 0, "cleanup_apply": 0, "cleanup_execute_core": 0,
+           "cleanup_execute": 0}
+FRAGMENT_MODE = bool(os.environ.get("CLEANUP_FRAGMENT"))
 SIGNS = [Sign.NoSign, Sign.NoSign, Sign.NoSign, Sign.Negation, Sign.DoubleNegation]
 
 
@@ -109,7 +116,7 @@ def random_mappings(rng, pool, n, wellformed=True):
     for _ in range(n):
         hp = rng.choice(pool)
         bp = rng.choice(pool)
-        if wellformed or rng.random() < 0.7:
+        if wellformed or rng.random() < 0.5:
             if hp.arity == 0 and bp.arity > 0:
                 continue
             vm = tuple(rng.randrange(hp.arity) for _ in range(bp.arity))
@@ -354,7 +361,7 @@ class CleanupSuperseeded:
             injected = None
             if pool and rng.random() < 0.5:
                 injected = CleanupTranslator([])
-                injected.superseeds = random_mappings(rng, pool, rng.randint(2, 10), wellformed=rng.random() < 0.6)
+                injected.superseeds = random_mappings(rng, pool, rng.randint(2, 10), wellformed=rng.random() < 0.5)
                 order = list(injected.superseeds)      # the iteration order the real loop will see
             for s in prg:
                 pairs = _pairs(rng, s)
@@ -477,9 +484,12 @@ class CleanupExecuteCore:
     name = "cleanup_execute_core"
     imports = IMPORTS
     source = "ngo.cleanup.CleanupTranslator.execute with ngo.cleanup.inline_arithmetic patched to `lambda prg: list(prg)`"
+    model = "execute_core"
+    chk = "chk_rprog"
+    fn = "execute (inline_arithmetic = identity)"
 
     @staticmethod
-    def run_core(ins, prg):
+    def run(ins, prg):
         import ngo.cleanup as mod
         saved = mod.inline_arithmetic
         mod.inline_arithmetic = lambda prg: list(prg)
@@ -514,13 +524,32 @@ class CleanupExecuteCore:
                     if ins_round == 1 and not ins:
                         continue
                     before = [str(s) for s in prg]
-                    obs, js = observe(lambda: self.run_core(ins, prg),  # pylint: disable=cell-var-from-loop
-                                      lambda r: (ser.prog(r), [str(s) for s in r]))
-                    yield Case(f"chk_rprog (execute_core {preds(ins)} {t}) {obs}",
-                               {"fn": "execute (inline_arithmetic = identity)", "kind": kind,
-                                "inputs": [str(p) for p in ins], "program": "\n".join(before), "source": text,
-                                "observed": js},
-                               nontrivial=js != before)
+                    try:
+                        obs, js = observe(lambda: self.run(ins, prg),  # pylint: disable=cell-var-from-loop
+                                          lambda r: (ser.prog(r), [str(s) for s in r]))
+                    except ser.Unsupported:
+                        SKIPPED[self.name] += 1
+                        continue
+                    desc = {"fn": self.fn, "kind": kind, "inputs": [str(p) for p in ins], "program": "\n".join(before),
+                            "source": text, "observed": js}
+                    if FRAGMENT_MODE and self.name == "cleanup_execute":
+                        yield Case(f"in_fragment ({self.model} {preds(ins)} {t})", desc, nontrivial=js != before)
+                    else:
+                        yield Case(f"{self.chk} ({self.model} {preds(ins)} {t}) {obs}", desc, nontrivial=js != before)
 
 
-FAMILIES = [CleanupMappings(), CleanupSuperseeded(), CleanupApply(), CleanupExecuteCore()]
+class CleanupExecute(CleanupExecuteCore):
+    name = "cleanup_execute"
+    imports = IMPORTS + ["Model.CleanupExecute"]
+    source = "ngo.cleanup.CleanupTranslator(inputs).execute(prg) (unpatched: inline_arithmetic, then the cleanup)"
+    model = "execute"
+    chk = "chk_rprog_frag"
+    fn = "execute"
+
+    @staticmethod
+    def run(ins, prg):
+        from ngo.cleanup import CleanupTranslator
+        return CleanupTranslator(list(ins)).execute(prg)
+
+
+FAMILIES = [CleanupMappings(), CleanupSuperseeded(), CleanupApply(), CleanupExecuteCore(), CleanupExecute()]
